@@ -31,6 +31,8 @@ def build(mod, agg: dict, *, tier: str, seed: int, wall_s: float, n_viol: int, r
         "harness_errors": len(agg["errors"]),
         "exhaustive": bool(getattr(mod, "EXHAUSTIVE", {}).get(tier, False)),
     }
+    if agg.get("optimize_batch"):
+        cov["interpreter_configurations"] = ["default", agg["optimize_batch"]]
     if hasattr(mod, "evidence_extra"):
         cov.update(mod.evidence_extra(agg, tier) or {})
     return {
@@ -47,7 +49,7 @@ def build(mod, agg: dict, *, tier: str, seed: int, wall_s: float, n_viol: int, r
 
 def write(prop: str, ev: dict) -> str:
     d = os.path.join(VERIF, "evidence")
-    if os.environ.get("VERIF_REPO_SRC"):
+    if os.environ.get("VERIF_REPO_SRC") or os.environ.get("VERIF_SUBBATCH"):
         # a development run against a scratch copy of the repository (a seeded change, a mutant): its evidence does not
         # describe /repo and must never land in the committed evidence directory
         d = os.path.join("/dev/shm" if os.path.isdir("/dev/shm") else os.environ.get("TMPDIR", "/tmp"), "verif-evidence-scratch")
